@@ -7,6 +7,7 @@ import KV.T1FExec
 import KV.TypeConv
 import KV.GenConv
 import KV.BaseName
+import KV.Reserved
 /-! Line-protocol driver for the executable models: one request per line on stdin, one canonical answer
     line on stdout.  The correspondence check pipes the same lines to the implementation's drivers
     (verif-tagged test files in /repo) and diffs the two streams.
@@ -240,9 +241,7 @@ partial def ifacesOk : GConv.Ty → Bool
                     kids.all (fun k => match k with | .node (.func _) _ => true | _ => false)
      | _ => true) && kids.all ifacesOk
 
-def handleTypeConv (line : String) : String :=
-  match line.splitOn "|" with
-  | [c, names, ty] =>
+def handleTypeConvR (c names : String) (declared : List String) (ty : String) : String :=
     let names := words names
     let cur : Option (Option Nat) := if c.trimAscii.toString == "-" then some none else (c.trimAscii.toString.toNat?).map some
     match cur with
@@ -253,11 +252,18 @@ def handleTypeConv (line : String) : String :=
       match parseTyS (toks.length + 2) toks with
       | some (t, []) =>
         if !variadicOk false t then "BAD" else
-        match TConv.render cur (fun p => names.getD p "") { imports := [], used := [], counters := [] } (toTConv t) with
+        -- `NewTypeConverter` reserves `kessoku` and the identifiers declared in the current package
+        let init := Imp.TC.withReserved ("kessoku" :: (if cur.isSome then declared else []))
+        match TConv.render cur (fun p => names.getD p "") init (toTConv t) with
         | none => "FUEL"
         | some (tc, e) =>
           "T " ++ TConv.exStr e ++ " | " ++ " ".intercalate (sortStrs (tc.imports.map (fun (p, n) => "p" ++ toString p ++ "=" ++ n)))
       | _ => "BAD"
+
+def handleTypeConv (line : String) : String :=
+  match line.splitOn "|" with
+  | [c, names, declared, ty] => handleTypeConvR c names (words declared) ty
+  | [c, names, ty] => handleTypeConvR c names [] ty
   | _ => "BAD"
 
 def handleGenConv (line : String) : String :=
